@@ -31,6 +31,7 @@ def run(ctx) -> None:
     rep.rule("C04.R2", "exhaustion of the bound raises ExecutionError(InfiniteLoopError(bound), state) while nodes are still ready", floor=2)
     rep.rule("C04.R3", "staleness comparator: equal->fresh, greater->stale; versions only ever grow by one; accumulator rule consulted", floor=4)
     rep.rule("C04.R4", "an END decision is never cleared as stale", floor=1)
+    rep.rule("C04.R6", "gate options (default_open ...) reach the gate node: factories and constructors use every option they accept", floor=8)
     rep.rule("C04.R5", "a ready gate holds its targets back even when it is itself deferred behind the producer of its signal", floor=1)
 
     sss = set(superstep_funcs(db))
@@ -106,28 +107,7 @@ def run(ctx) -> None:
 
     # ---- R3 ----------------------------------------------------------------------
     stale = db.func("runners._shared.helpers._is_stale")
-    cur = cons = None
-    for n in walk_local(stale.node):
-        if isinstance(n, ast.Assign) and isinstance(n.targets[0], ast.Name):
-            t = src(n.value)
-            if "get_version" in t:
-                cur = n.targets[0].id
-            if "input_versions" in t:
-                cons = n.targets[0].id
-    tests = [n for n in walk_local(stale.node) if isinstance(n, ast.If) and cur and cons and cur in src(n.test) and cons in src(n.test)]
-    if not (cur and cons and tests):
-        rep.bad("C04.R3", f"{stale.qname}:comparator", stale.loc(), "comparison of current and consumed input versions not found")
-    else:
-        t = tests[0]
-        returns_true = any(isinstance(s, ast.Return) and isinstance(s.value, ast.Constant) and s.value.value is True for s in t.body)
-        try:
-            tab = ordering_table(t.test, cur, cons)
-            # feasible orderings: eq, gt (versions are monotone: consumed <= current)
-            stale_tab = {k: (v if returns_true else not v) for k, v in tab.items()}
-            ok = stale_tab["eq"] is False and stale_tab["gt"] is True
-            rep.add("C04.R3", f"{stale.qname}:comparator", ok, f"{stale.module.rel}:{t.lineno}", f"stale iff current > consumed (table over feasible orderings: eq->{stale_tab['eq']}, gt->{stale_tab['gt']})" if ok else f"staleness test '{src(t.test)}' has table eq->{stale_tab['eq']}, gt->{stale_tab['gt']} (expected eq->False, gt->True)")
-        except NotComparable as e:
-            rep.bad("C04.R3", f"{stale.qname}:comparator", f"{stale.module.rel}:{t.lineno}", f"staleness test is not a pure comparison of the two versions ({e})")
+    cur, cons = check_stale_comparator(ctx, "C04.R3")
     # footprint: self_producers & controlled_by (via _is_controlled_by_gate)
     foot = set()
     for g in db.closure([stale], property_reads=False):
@@ -199,10 +179,57 @@ def run(ctx) -> None:
     _r5(ctx)
 
 
+def check_stale_comparator(ctx, rule: str):
+    """Staleness is decided per input: the current version of a parameter is compared with the version of
+    the *same* parameter the node consumed last time; equal -> fresh, greater -> stale."""
+    db, rep = ctx.db, ctx.rep
+    stale = db.func("runners._shared.helpers._is_stale")
+    cur = cons = None
+    for n in walk_local(stale.node):
+        if isinstance(n, ast.Assign) and isinstance(n.targets[0], ast.Name):
+            t = src(n.value)
+            if "get_version" in t:
+                cur = n.targets[0].id
+            if "input_versions" in t:
+                cons = n.targets[0].id
+    tests = [n for n in walk_local(stale.node) if isinstance(n, ast.If) and cur and cons and cur in src(n.test) and cons in src(n.test)]
+    if not (cur and cons and tests):
+        rep.bad(rule, f"{stale.qname}:comparator", stale.loc(), "comparison of current and consumed input versions not found")
+    else:
+        t = tests[0]
+        returns_true = any(isinstance(s, ast.Return) and isinstance(s.value, ast.Constant) and s.value.value is True for s in t.body)
+        try:
+            tab = ordering_table(t.test, cur, cons)
+            # feasible orderings: eq, gt (versions are monotone: consumed <= current)
+            stale_tab = {k: (v if returns_true else not v) for k, v in tab.items()}
+            ok = stale_tab["eq"] is False and stale_tab["gt"] is True
+            rep.add(rule, f"{stale.qname}:comparator", ok, f"{stale.module.rel}:{t.lineno}", f"stale iff current > consumed (table over feasible orderings: eq->{stale_tab['eq']}, gt->{stale_tab['gt']})" if ok else f"staleness test '{src(t.test)}' has table eq->{stale_tab['eq']}, gt->{stale_tab['gt']} (expected eq->False, gt->True)")
+        except NotComparable as e:
+            rep.bad(rule, f"{stale.qname}:comparator", f"{stale.module.rel}:{t.lineno}", f"staleness test is not a pure comparison of the two versions ({e})")
+    # both versions belong to the same parameter
+    same = False
+    why = "current/consumed versions not recognised"
+    if cur and cons:
+        kcur = kcons = None
+        for n in walk_local(stale.node):
+            if isinstance(n, ast.Assign) and isinstance(n.targets[0], ast.Name) and isinstance(n.value, ast.Call) and n.value.args:
+                if n.targets[0].id == cur and isinstance(n.value.func, ast.Attribute) and n.value.func.attr == "get_version":
+                    kcur = n.value.args[0]
+                if n.targets[0].id == cons and isinstance(n.value.func, ast.Attribute) and n.value.func.attr == "get" and "input_versions" in src(n.value.func.value):
+                    kcons = n.value.args[0]
+        loopvars = {x.id for lp in walk_local(stale.node) if isinstance(lp, ast.For) and src(lp.iter).endswith(".inputs") for x in ast.walk(lp.target) if isinstance(x, ast.Name)}
+        same = kcur is not None and kcons is not None and src(kcur) == src(kcons) and isinstance(kcur, ast.Name) and kcur.id in loopvars
+        why = "each input's current version is compared with that same input's consumed version" if same else "the consumed version compared against is not the one recorded for the same parameter (e.g. a maximum over all inputs): versions are independent counters per name, so a first upstream production (version 1) no longer makes a node stale once any other input was consumed at version >= 1"
+    rep.add(rule, f"{stale.qname}:per-parameter", same, stale.loc(), why)
+    return cur, cons
+
+
 def _r5(ctx) -> None:
     from .c17 import check_block_before_deferral
+    from .c03 import check_node_options_used
 
     check_block_before_deferral(ctx, "C04.R5")
+    check_node_options_used(ctx, "C04.R6")
 
 
 def check_end_never_cleared(ctx, rule: str) -> None:
